@@ -356,6 +356,10 @@ type fakeTCP struct {
 	idx int
 }
 
+// probeAnswered, when set, is called by a fake client right before a successful scripted probe returns to the
+// probe loop's worker (the switch scenario wakes its selecting thread there).
+var probeAnswered func()
+
 func (c *fakeTCP) NewStreamDialer() (netio.StreamDialer, netio.StreamDialerInfo) {
 	return c, netio.StreamDialerInfo{Name: clientName(c.idx)}
 }
@@ -378,6 +382,9 @@ func (c *fakeTCP) DialStream(ctx context.Context, addr conn.Addr, payload []byte
 		return &fakeConn{data: []byte("HTTP/1.1 500 Internal Server Error\r\nContent-Length: 0\r\n\r\n")}, nil
 	default:
 		vsched.Sleep(o.latency())
+		if probeAnswered != nil {
+			probeAnswered()
+		}
 		return &fakeConn{data: []byte("HTTP/1.1 204 No Content\r\n\r\n")}, nil
 	}
 }
@@ -451,6 +458,9 @@ func (c *fakeUDP) probe(ctx context.Context) error {
 		return errors.New("scripted bad answer")
 	default:
 		vsched.Sleep(o.latency())
+		if probeAnswered != nil {
+			probeAnswered()
+		}
 		return nil
 	}
 }
@@ -1079,7 +1089,84 @@ func reportViolations(c *harness.Check, fns map[string]harness.ScenarioFn, viols
 
 // ---------------------------------------------------------------------------
 
-var scenarioFns = map[string]harness.ScenarioFn{"hist": limited(histScenario), "rr": limited(rrScenario), "rand": limited(randScenario)}
+var scenarioFns = map[string]harness.ScenarioFn{"hist": limited(histScenario), "rr": limited(rrScenario), "rand": limited(randScenario), "switch": limited(switchScenario)}
+
+// switchScenario: selections that run concurrently with the probe loop's switch of the selected client.  The
+// history makes the best client change at the end of a round; a second thread asks the group for a client at
+// the moment each round's last probe is answered, so that under the explorer its selections are interleaved
+// with the evaluation of the round and the switch in every way the preemption bound allows.  Whatever it gets must be one member
+// of the group: for TCP the dialer and the info returned together must belong to the same client.
+func switchScenario(param string) vsched.Scenario {
+	sp := parseSpec(param)
+	return func() (func(), func(*vsched.Exec) (string, string)) {
+		var (
+			got      []int
+			setupErr string
+			final    int
+		)
+		hist := parseHistory(sp.fix)
+		body := func() {
+			e, err := newEnv(sp, hist)
+			if err != nil {
+				setupErr = err.Error()
+				return
+			}
+			if len(e.services) != 1 {
+				setupErr = fmt.Sprintf("%d probe services registered, want 1", len(e.services))
+				return
+			}
+			ctx, cancel := vcontext.WithCancel(context.Background())
+			e.t0 = vsched.NowNS()
+			if err := e.services[0].Start(ctx); err != nil {
+				setupErr = "Start: " + err.Error()
+				return
+			}
+			// every round of these histories has exactly one successful probe, and it is the last to finish: when
+			// its answer arrives the worker hands the result to the loop, which evaluates the round and switches.
+			// The selecting thread becomes runnable at that very moment (a timer would not do: the virtual clock
+			// fires timers one at a time at quiescence, so two timers due at one instant never overlap).
+			answered := 0
+			probeAnswered = func() { answered++ }
+			defer func() { probeAnswered = nil }()
+			var g vsched.Group
+			g.Go(func() {
+				for r := range hist {
+					vsched.PointIf(func() bool { return answered > r }, "selector.wait")
+					got = append(got, e.selectIdx(false), e.selectIdx(false))
+				}
+			})
+			g.Wait()
+			sleepUntil(e.t0 + int64(probeInterval)*int64(len(hist)) + int64(postOffset))
+			final = e.selectIdx(false)
+			cancel()
+			vsched.WaitIdle()
+			if vsched.LiveThreads() > 1 {
+				vsched.Abort()
+			}
+		}
+		check := func(ex *vsched.Exec) (string, string) {
+			tag := sp.policy + "/" + sp.proto + " concurrent-switch"
+			obs := fmt.Sprintf("%s n=%d history=%s got=%v final=%d", tag, sp.n, sp.fix, got, final)
+			if setupErr != "" {
+				return obs, tag + " setup :: " + setupErr
+			}
+			if t := execTrouble(tag, ex); t != "" {
+				return obs, t
+			}
+			for i, v := range got {
+				if v < 0 || v >= sp.n {
+					return obs, fmt.Sprintf("%s not-a-member :: selection %d, made while the probe loop was switching clients, returned something that is no single member of the group (for TCP: the dialer of one client with the info of another)", tag, i)
+				}
+			}
+			want, _ := reference(sp.policy, hist, len(hist)-1, sp.n)
+			if final != want {
+				return obs, fmt.Sprintf("%s not-best :: after the last round the group serves client %d, the policy says %d", tag, final, want)
+			}
+			return obs, ""
+		}
+		return body, check
+	}
+}
 
 // limited keeps a shard worker from recording the same failing shape over and
 // over (a broken scan fails on most histories; each record carries the whole
@@ -1216,6 +1303,22 @@ func main() {
 	fold(c, "rr", scenarioFns["rr"], harness.ExploreBatch("rr", rrParams, maxPoints, budget, false), func(sp spec) string {
 		return fmt.Sprintf("round-robin/%s %d threads x %d selections", sp.proto, sp.threads, sp.sel)
 	}, aggs, &order, &viols)
+
+	// ---- selections concurrent with the probe loop's switch of the selected client
+	var swParams []string
+	for _, proto := range []string{"tcp", "udp"} {
+		swParams = append(swParams,
+			spec{part: "switch", proto: proto, policy: "availability", n: 2, fix: "10,F/F,10/F,10"}.String(),
+			spec{part: "switch", proto: proto, policy: "latency", n: 2, fix: "10,10/F,10/F,10"}.String(),
+			spec{part: "switch", proto: proto, policy: "min-max-latency", n: 2, fix: "10,10/F,10/F,10"}.String())
+	}
+	// timers fire at quiescence only: a probe worker stalled for tens of milliseconds would legitimately measure
+	// a different latency, and the reference for the final selection assumes the scripted ones
+	harness.NoEarlyClock = true
+	fold(c, "switch", scenarioFns["switch"], harness.ExploreBatch("switch", swParams, harness.Pick(c, 2, 3), harness.Pick(c, 2*time.Minute, 20*time.Minute), false), func(sp spec) string {
+		return sp.policy + "/" + sp.proto + " concurrent-switch"
+	}, aggs, &order, &viols)
+	harness.NoEarlyClock = false
 
 	// ---- random: every IntN answer
 	var randParams []string
